@@ -889,7 +889,9 @@ fn traits_json<'tcx>(tcx: TyCtxt<'tcx>) -> Vec<J> {
         out.push(J::obj(vec![
             ("path", J::s(def_path(tcx, did))),
             ("pub", J::Bool(tcx.visibility(did).is_public())),
-            ("effective_pub", J::Bool(tcx.effective_visibilities(()).is_reachable(id.owner_id.def_id))),
+            ("effective_pub", J::Bool(tcx.effective_visibilities(()).is_exported(id.owner_id.def_id))),
+            ("reachable", J::Bool(tcx.effective_visibilities(()).is_reachable(id.owner_id.def_id))),
+            ("directly_pub", J::Bool(tcx.effective_visibilities(()).is_directly_public(id.owner_id.def_id))),
             ("supertraits", J::Arr(supers)),
             ("items", J::Arr(items)),
         ]));
